@@ -10,10 +10,13 @@ from common import *
 CERTS = ["good", "wrongname", "selfsigned", "expired"]
 
 
-def run_tls(scs, threads=12):
+def run_tls(scs, threads=12, trust_ca=False):
     data = ("\n".join(json.dumps(s) for s in scs) + "\n").encode()
     env = dict(os.environ)
     env["VERIF_CERTS"] = os.path.join(VERIF, "certs")
+    if trust_ca:
+        env["SSL_CERT_FILE"] = os.path.join(VERIF, "certs", "ca.pem")       # the test CA is the platform's trust store for this run
+        env.pop("SSL_CERT_DIR", None)
     p = subprocess.run([LH, "tls", str(threads)], input=data, stdout=subprocess.PIPE, stderr=subprocess.PIPE, env=env)
     out = []
     for l in p.stdout.decode("utf-8", "replace").split("\n"):
@@ -58,6 +61,16 @@ def gen(tier):
                                 scs.append({"flavor": fl, "mode": mode,
                                             "server": {"starttls_offered": offered, "starttls_reply": reply, "cert": cert, "implicit_tls": mode == "wrapper", "caps_before": cb, "caps_after": ca},
                                             "client": {"add_root": root, "accept_invalid_certs": aic, "accept_invalid_hostnames": aih, "creds": creds}})
+    # the EHLO repeated inside TLS answered without a server name (which the client cannot interpret) or with blanks only: whatever was
+    # learned in clear must not survive - the connection has to fail, not go on with the old capabilities
+    for fl in ("sync", "tokio"):
+        for mode in ("opportunistic", "required", "wrapper"):
+            for nm in ("", " "):
+                for creds in (True, False):
+                    scs.append({"flavor": fl, "mode": mode,
+                                "server": {"starttls_offered": True, "starttls_reply": "ok", "cert": "good", "implicit_tls": mode == "wrapper", "caps_before": ["AUTH PLAIN", "8BITMIME", "SMTPUTF8"],
+                                           "caps_after": ["AUTH LOGIN"], "ehlo_name_after": nm},
+                                "client": {"add_root": True, "accept_invalid_certs": False, "accept_invalid_hostnames": False, "creds": creds}, "keep": True})
     if tier == "quick":
         # building the client's TLS parameters costs ~90 ms of serialised work per scenario (the system
         # certificate store is loaded under a lock): the quick tier keeps every (mode, server behaviour,
@@ -66,7 +79,9 @@ def gen(tier):
         for k, s_ in enumerate(scs):
             c = s_["client"]
             plain = c["add_root"] and not c["accept_invalid_certs"] and not c["accept_invalid_hostnames"]
-            if s_["flavor"] == "sync":
+            if s_.get("keep"):
+                keep.append(s_)
+            elif s_["flavor"] == "sync":
                 if s_["server"]["cert"] == "good" or c["creds"]:
                     keep.append(s_)
             elif plain or (k % 3 == 0 and c["creds"]):
@@ -87,7 +102,7 @@ def script_for(sc, clear, tls):
     tls_started = sc["server"]["implicit_tls"]
 
     def ehlo(inside):
-        lines = ["srv"] + list(sc["server"]["caps_after" if inside else "caps_before"])
+        lines = [sc["server"].get("ehlo_name_after", "srv") if inside else "srv"] + list(sc["server"]["caps_after" if inside else "caps_before"])
         if not inside and sc["server"]["starttls_offered"]:
             lines.append("STARTTLS")
         return "".join("250%s%s\r\n" % ("-" if i + 1 < len(lines) else " ", l) for i, l in enumerate(lines)).encode()
@@ -176,6 +191,17 @@ def oracle(sc, r):
         return (not c["creds"]) or ("AUTH" in caps and ("PLAIN" in caps or "LOGIN" in caps))
     upgrade_possible = (sv["starttls_offered"] and sv["starttls_reply"] == "ok") or sv["implicit_tls"]
     acceptable = cert_acceptable(sv["cert"], c)
+    if sv.get("ehlo_name_after", "srv").strip() == "" and mode != "none":
+        # the EHLO inside TLS cannot be interpreted: the connection must fail there - nothing learned in clear may steer the session
+        if ok:
+            bad.append("%s TLS: the EHLO reply inside TLS had no server name, yet the send succeeded" % mode)
+        for ln in tls:
+            if not (ln.upper().startswith(b"EHLO ") or ln.upper() == b"QUIT"):
+                bad.append("%s TLS: after an uninterpretable EHLO reply inside TLS the client went on with %r (capabilities learned in clear survived)" % (mode, ln[:40]))
+        for ln in clear:
+            if not (ln.upper().startswith(b"EHLO ") or ln.upper() in (b"STARTTLS", b"QUIT")):
+                bad.append("%s TLS: %r was written in clear" % (mode, ln[:60]))
+        return bad
     if mode in ("required", "wrapper"):
         for ln in clear:
             if not (ln.upper().startswith(b"EHLO ") or ln.upper() in (b"STARTTLS", b"QUIT")):
@@ -276,6 +302,38 @@ def preset_family(ctx):
         ctx.violation({"kind": "oracle", "entry": "relay / starttls_relay / from_url", "what": bad[0][1], "scenario": bad[0][0], "failures": len(bad)})
 
 
+def url_tls_family(ctx):
+    """Transports built by from_url over real TLS: the caller sets no TLS parameter, so the certificate must be trusted by the platform
+    (here: the test CA through SSL_CERT_FILE) AND name the host of the URL - a host name or an IP literal alike."""
+    scs, meta = [], []
+    for fl in ("sync", "tokio"):
+        for host, named in (("localhost", {"good"}), ("127.0.0.1", set())):
+            for cert in CERTS:
+                for scheme, mode in (("smtps://user:hunter2@%s:{port}", "wrapper"), ("smtp://user:hunter2@%s:{port}?tls=required", "required"), ("smtp://user:hunter2@%s:{port}?tls=opportunistic", "opportunistic")):
+                    scs.append({"id": len(scs), "flavor": fl, "mode": mode,
+                                "server": {"starttls_offered": True, "starttls_reply": "ok", "cert": cert, "implicit_tls": mode == "wrapper", "caps_before": ["AUTH PLAIN"], "caps_after": ["AUTH PLAIN"]},
+                                "client": {"url": scheme % host, "creds": True}})
+                    meta.append((host, cert, cert in named))
+    res = run_tls(scs, trust_ca=True)
+    bad = []
+    for (host, cert, should), r, sc in zip(meta, res, scs):
+        ctx.count()
+        if "error" in r or r.get("result") in ("PANIC", "HANG") or str(r.get("result", "")).startswith("setup-error"):
+            bad.append((sc, "harness/implementation failure: %s" % str(r)[:200])); continue
+        ok = r["result"].startswith("ok,")
+        tls_lines = L(r["tls"])
+        if ok != should:
+            bad.append((sc, "%s to %s with the %s certificate (trusted CA; names %s): send %s" % (sc["client"]["url"], host, cert, "the host" if should else "another host / untrusted / expired", r["result"][:80])))
+        elif not should and any(ln.upper().startswith((b"AUTH", b"MAIL", b"RCPT")) for ln in tls_lines):
+            bad.append((sc, "credentials or envelope were sent over a session whose certificate does not name %s" % host))
+        for ln in L(r["clear"]):
+            if not (ln.upper().startswith(b"EHLO ") or ln.upper() in (b"STARTTLS", b"QUIT")):
+                bad.append((sc, "%r was written in clear" % ln[:60]))
+    ctx.cov["oracle"]["from_url_over_tls_certificate_must_name_the_url_host"] = {"scenarios": len(scs), "failures": len(bad)}
+    if bad:
+        ctx.violation({"kind": "oracle", "entry": "from_url over TLS", "what": bad[0][1], "scenario": bad[0][0], "failures": len(bad)})
+
+
 def run(ctx):
     scs = gen(ctx.tier)
     ctx.note("%d TLS scenarios" % len(scs))
@@ -325,6 +383,7 @@ def run(ctx):
         if why:
             cbad.append((sc, r, "; ".join(why)))
     preset_family(ctx)
+    url_tls_family(ctx)
     ctx.cov["oracle"]["server_view_clear_vs_tls"] = {"scenarios": len(scs), "failures": len(obad)}
     ctx.cov["correspondence"]["tls_connection_model"] = {"scenarios": len(scs), "disagreements": len(cbad)}
     ctx.cov["rule"] = ("TLS mode {none, opportunistic, required, wrapper} x server {no STARTTLS, STARTTLS ok, refused 454/502, 220 then garbage, 220 then close, 220 followed by injected plaintext} x certificate {trusted+right name, trusted+wrong name, "
